@@ -97,8 +97,10 @@ def gen_leaf(sp, rng, ish, kinds=None, cplx=True):
                 return lin.RightMatMul(ish, gint(rng, ms, cplx), adjoint=adj), k
             if k == "resize":
                 osh = [rng.choice([n, n + 1, n + 2, max(1, n - 1), max(1, n - 2), rng.randint(1, 5)]) for n in ish]
-                isf = [rng.randint(0, n) for n in ish] if rng.random() < 0.3 else None
-                osf = [rng.randint(0, n) for n in osh] if rng.random() < 0.3 else None
+                if rng.random() < 0.25:
+                    osh = list(ish)               # same shape: a pure zero-filling shift when a shift is given
+                isf = [rng.randint(0, n) for n in ish] if rng.random() < 0.35 else None
+                osf = [rng.randint(0, n) for n in osh] if rng.random() < 0.35 else None
                 return lin.Resize(osh, ish, ishift=isf, oshift=osf), k
             if k == "flip":
                 axes = None if rng.random() < 0.3 else list({rng.randrange(-nd, nd) % nd - rng.choice([0, nd]) for _ in range(rng.randint(1, nd))})
@@ -423,8 +425,10 @@ def structured_trees(sp, rng):
             return (1 + 2j) * lin.Identity(sh)
         if kind == "fft":          # a real-dtype input comes back as complex64 (by design), a complex one as complex128
             return lin.FFT(sh, axes=[-1])
+        if kind == "shift":        # same-shape Resize with ONE explicit shift: crops on one side, zero-fills on the other
+            return lin.Resize(sh, sh, oshift=[1, 0]) if rng.random() < 0.5 else lin.Resize(sh, sh, ishift=[0, 1])
         raise ValueError(kind)
-    kinds = ["fresh", "self", "view", "noncontig", "cscalar", "fft"]
+    kinds = ["fresh", "self", "view", "noncontig", "cscalar", "fft", "shift"]
     combs = {
         "add": lambda a, b: a + b,
         "sub": lambda a, b: a - b,
